@@ -203,7 +203,7 @@ func runSeq(run *vk.Run, seq []op, tag string) {
 		runSeqInReplay(run, seq, tag+"-in-replay")
 	}
 	runSeqVia(run, seq, tag, false)
-	if len(seq) >= 2 && seq[0].K == "reg" {
+	if len(seq) >= 2 && (seq[0].K == "reg" || seq[0].K == "regnil") {
 		runSeqVia(run, seq, tag+"-opt", true)
 	}
 }
@@ -215,10 +215,14 @@ func runSeqVia(run *vk.Run, seq []op, tag string, viaOptions bool) {
 	lead := 0
 	var opts []ebu.Option
 	if viaOptions {
-		for lead < len(seq)-1 && seq[lead].K == "reg" {
+		for lead < len(seq)-1 && (seq[lead].K == "reg" || seq[lead].K == "regnil") {
 			o := seq[lead]
 			to := o.To
-			opts = append(opts, ebu.WithUpcast(o.From, o.To, func(d json.RawMessage) (json.RawMessage, string, error) { return d, to, nil }))
+			if o.K == "regnil" {
+				opts = append(opts, ebu.WithUpcast(o.From, o.To, nil)) // a nil function is no upcaster, by whatever route
+			} else {
+				opts = append(opts, ebu.WithUpcast(o.From, o.To, func(d json.RawMessage) (json.RawMessage, string, error) { return d, to, nil }))
+			}
 			g.step(o)
 			lead++
 		}
